@@ -74,6 +74,14 @@ CLAIMS = {
              'propagation; numerical equality, real schedules and the OS primitives are NOT decided.',
         note='Trusts: CPython ast; os.fork/_exit/waitpid and multiprocessing.Lock semantics; completeness of _pyast Expression.variables (checked under C02/R02.4).',
         design='DESIGN.md section 2, C16'),
+    'C19': dict(
+        technique='static analysis: raise-type and conversion-guard lints, guard dominance over enumerated paths before each semantic action, table agreement, exception-escape fixpoint over the v1 call graph, opcode writer/reader agreement (ast)',
+        text='Decides the rejection discipline and table agreement of both expression languages: in the v2 parser every raise is the module\'s ExpressionSyntaxError and every int()/float() of user text is guarded; '
+             'on every enumerated path to the semantic actions divide/power/add/trace/get_element/scope the documented rejections were tested; the bracket table, array operations and default functions are the documented '
+             'ones; in v1 the internal _IntermediateError cannot escape any entry point and every opcode tuple that is constructed has a reader branch of compatible arity calling the function it names. These are '
+             'necessary for "violations are rejected with the syntax error and never silently evaluated to something else"; that an accepted string evaluates to its index-notation reading is NOT decided.',
+        note='Trusts: CPython ast/symtable; the documented grammar in the module docstrings as the meaning of the tables; name-based call resolution inside expression_v1.',
+        design='DESIGN.md section 2, C19'),
 }
 
 NOT_APPLICABLE = {
